@@ -7,7 +7,8 @@ from collections import Counter
 
 from .. import leanproj, pipeline, evalcorr, gen, opmatrix
 from ..common import Rng, seed
-from ..corr import build_model
+from ..corr import build_model, build_harness
+from .. import laddercorr
 
 FEATS = {"structs": True, "funcs": True, "variable": True}
 
@@ -85,6 +86,26 @@ def loop_programs():
         return out
 
     progs = []
+    # the variable of a for-each loop is a copy of the element: assigning to it changes neither the container nor which
+    # elements come next — over a Text for letters of every encoded width replaced by letters of every other width
+    for at in (1, 2, 3, 4):
+        for wl, letter in (("1", 0x3F), ("2", 0xDF), ("3", 0x20AC), ("4", 0x1F600)):
+            for idx in (None, "k"):
+                body = [("compound", "plus", V("n"), I(1)), ("print", V("x")), sep,
+                        ("if", eq(V("n"), I(at)), [("assign", ("var", "x"), ("char", letter))], []), ("print", V("x")), sep]
+                if idx:
+                    body += [("print", V(idx)), sep]
+                progs.append(("foreach-assign-text:%d:%s:%s" % (at, wl, "index" if idx else "plain"),
+                              dict(structs=[], globals=[], funcs=[], types={},
+                                   main=[("decl", "Z", "n", I(0)), ("decl", "T", "t", txt), ("foreach", "C", "x", idx, V("t"), body),
+                                         nl, ("println", V("t")), ("println", V("n"))])))
+    for idx in (None, "k"):
+        body = [("compound", "plus", V("n"), I(1)), ("print", V("x")), sep,
+                ("if", eq(V("n"), I(2)), [("assign", ("var", "x"), I(7))], []), ("print", V("x")), sep]
+        progs.append(("foreach-assign-list:%s" % ("index" if idx else "plain"),
+                      dict(structs=[], globals=[], funcs=[], types={},
+                           main=[("decl", "Z", "n", I(0)), ("decl", ("L", "Z"), "l", lst), ("foreach", "Z", "x", idx, V("l"), body),
+                                 nl, ("println", V("l")), ("println", V("n"))])))
     for lab, stmts in forms("a", []):
         progs.append((lab, dict(structs=[], globals=[], funcs=[], main=stmts + [nl, ("println", ("var", "na"))], types={})))
     # nested: the inner loop (with its own jumps) inside each outer form without jump; the outer index is observed after it
@@ -113,6 +134,31 @@ def float_equality_programs():
             main = decls + [("decl", ty, "x", x), ("decl", ty, "y", y),
                             ("println", ("bin", "eq", V("x"), V("y"))), ("println", ("bin", "ne", V("x"), V("y")))]
             progs.append(("float-equality:%s:%s" % (label, hl), dict(structs=[], globals=[], funcs=[], main=main, types={})))
+            if label == "nan" and hl in ("list", "variable"):
+                # a value compared with itself through one name is compared like any two equal-looking values
+                main = decls + [("decl", ty, "x", x), ("println", ("bin", "eq", V("x"), V("x"))), ("println", ("bin", "ne", V("x"), V("x")))]
+                progs.append(("float-equality:nan:%s-self" % hl, dict(structs=[], globals=[], funcs=[], main=main, types={})))
+    return progs
+
+
+def falls_programs():
+    """chains of conditional expressions written without parentheses: `a, falls c1, ansonsten b, falls c2, ansonsten d` reads
+    as a, falls c1, ansonsten (b, falls c2, ansonsten d) — every combination of conditions, 2 and 3 links, values of three types"""
+    B = lambda v: ("bool", v)
+    progs = []
+    for ty, vals in (("Z", [("int", 1), ("int", 2), ("int", 3), ("int", 4)]),
+                     ("T", [("text", [0x61]), ("text", [0x62]), ("text", [0x63]), ("text", [0x64])]),
+                     ("W", [B(True), B(False), B(True), B(False)])):
+        for links in (2, 3):
+            for bits in range(2 ** links):
+                conds = [bool(bits >> i & 1) for i in range(links)]
+                main = [("decl", "W", "c%d" % i, B(c)) for i, c in enumerate(conds)]
+                e = vals[links]
+                for i in reversed(range(links)):
+                    e = ("ter", "falls", vals[i], ("var", "c%d" % i), e)
+                main += [("decl", ty, "r", e), ("println", ("var", "r"))]
+                progs.append(("falls-chain:%s:%d:%s" % (ty, links, "".join("wf"[not c] for c in conds)),
+                              dict(structs=[], globals=[], funcs=[], main=main, types={})))
     return progs
 
 
@@ -144,6 +190,11 @@ def check(res, tier):
     st5 = evalcorr.judge_programs(res, ddp, model, [p for _, p in loops], cfgs[:1] if quick else cfgs, "loops", max_report=4)
     for lab, _ in loops:
         res.nontrivial("loop:" + lab)
+    fp = falls_programs()
+    st6 = evalcorr.judge_programs(res, ddp, model, [p for _, p in fp], cfgs[:1], "falls-chains", minimal=True, max_report=4)
+    for lab, _ in fp:
+        res.nontrivial(lab)
+    res.extra["outcomes_falls_chains"] = dict(st6)
     feq = float_equality_programs()
     want = evalcorr.model_eval(model, [p for _, p in feq])
     got = pipeline.farm(ddp, [(evalcorr.files_of(p), pipeline.Config(opt=1), {}) for _, p in feq])
@@ -153,6 +204,9 @@ def check(res, tier):
         if mo == "ok" and (r.cls != "ok" or r.stdout != mso):
             res.violation(lab, "%s: equality of Kommazahlen depends on where they are held: the compiled program prints %r, the evaluation rules give %r" % (lab, r.stdout, mso),
                           {"program": gen.pp_program(p), "model": {"outcome": mo, "stdout": mso}, "implementation": r.as_dict()})
+    # the ladder of the expression parser as a parser: model over the regenerated operator table vs the real parser
+    lst = laddercorr.run(res, build_harness(), model, ddp, sd, *((400, 400, 150) if quick else (5000, 5000, 1500)))
+    res.extra["ladder_tie"] = lst
     evalcorr.report_broken(res, broken)
     hist = Counter()
     for p in full + mini:
@@ -168,7 +222,9 @@ def check(res, tier):
                 "parameters, Kombinationen, Variable, conversions) printed fully parenthesised and with minimal parentheses: "
                 "stdout, exit status and Laufzeitfehler of the compiled program against the L2 evaluator; the call rows of the aliasing matrix "
                 "(value / Referenz / global / read-only parameters) at -O 0 and -O 2; every loop form x {Fahre fort in some iterations, Verlasse, both} "
-                "observing counter, index and element in the same and in later iterations, alone and nested in every other form")
+                "observing counter, index and element in the same and in later iterations, alone and nested in every other form; "
+                "token sequences over the chain operators, prefix operators and parentheses (minimal-parentheses spellings of random trees, "
+                "random operand/operator sequences, token soup): the tree in the real parser's AST against DDP.LadderParse.parse over the regenerated table")
     res.assumptions += ["programs whose evaluation hits an LLVM-undefined operation (modulo 0, shift >= width, Kommazahl out of the "
                         "integer range, Buchstabe outside Unicode, negative repeat counts) are generated but not judged",
                         "LLVM, the C compiler and libc (printf %.16g, pow) are trusted"]
